@@ -222,8 +222,10 @@ fn one_case(ctx: &Ctx, case: u64, l: &mut Local) {
             }
         }
     }
-    // single-disclosure edits on every disclosure
-    for (i, d) in genuine.iter().enumerate() {
+    // single-disclosure edits on every disclosure (credentials with hundreds of disclosures: on the
+    // first 24 and 8 random ones, so that one huge credential does not eat the budget)
+    let edit_targets: Vec<usize> = if genuine.len() <= 32 { (0..genuine.len()).collect() } else { (0..24).chain((0..8).map(|_| r.usize(genuine.len()))).collect() };
+    for (i, d) in genuine.iter().enumerate().filter(|(i, _)| edit_targets.contains(i)) {
         let text = match b64d(d).ok().and_then(|b| String::from_utf8(b).ok()) {
             Some(t) => t,
             None => continue,
